@@ -52,7 +52,7 @@ theorem enter_closure (L : Laws2 D) {ps : List Text} {body : List Datum} {ρc ρ
       SWF stE ∧ FrameAt stE (st0.sp + vs.length) ⟨vs.length, epc, lc, oc, s.bp, st0⟩ ∧
       Ext2 D s.heap σ.store h' σ1.store := by
   obtain ⟨f, cst, cst1, co, formals, bodyD, p, bcode, caps, a1, a2, a3, a4, a5, a6, a7, a8, a9, a10, a11, a12, a13,
-    a14, a15, a16, a17⟩ := hclos
+    a14, a15, a16, a17, a18⟩ := hclos
   obtain ⟨e1, e2, e3, e4, e5, e6, e7, e8⟩ := bindArgs_inv ps ws ρc ρ' σ σ1 a4 hbind
   have hvl : vs.length = ps.length := (All2.length_eq hvs).trans e1
   obtain ⟨hpb, hpa, hpro⟩ := lambdaParts_inv a1
@@ -82,7 +82,7 @@ theorem enter_closure (L : Laws2 D) {ps : List Text} {body : List Datum} {ρc ρ
     intro j hj
     rw [List.getElem?_map, List.getElem?_eq_getElem hj]; rfl
   obtain ⟨h', a, hmk, hfresh, hargs, hcap, hframe, hglob, hext, hsrx⟩ :=
-    L.activation_ok s.heap σ.store lam cenv B stE _ ps.length hi.extra a11 a13 hinfo ⟨s.acc, hcal⟩
+    L.activation_ok s.heap σ.store lam cenv B stE _ ps.length hi.extra a11 a13 hinfo a18
       (by
         intro j src hj
         obtain ⟨q, hq, _⟩ := map_get _ _ _ _ hj
